@@ -86,6 +86,12 @@ func (v *vocab) schemaOp(g *Gen, kinds []string) Op {
 	}
 	op.UseNumber = r.Chance(150)
 	op.Swagger = r.Chance(80)
+	if !op.Swagger && r.Chance(60) {
+		op.OptMode = r.Range(2, 3)
+	}
+	if op.Kind != KAgainst && r.Chance(80) {
+		op.SkipSchemata = true
+	}
 	if r.Chance(300) {
 		op.Path = pick(r, []string{"root", "a.b", "x"})
 	}
